@@ -60,6 +60,14 @@ func (g *cmdGate) hook(p *mrserver.Peer, cmd string, args ...string) bool {
 	return false
 }
 
+// fullToks: the command-level model assumes every member is written by every SetTok
+func (d *storeDriver) fullToks() {
+	for i, t := range d.toks {
+		t.AccessToken, t.RefreshToken = fmt.Sprintf("at-%d", i+1), fmt.Sprintf("rt-%d", i+1)
+		t.AccessTokenExpiresAt = baseTime.Add(time.Duration(1000+i+1) * time.Second)
+	}
+}
+
 func (d *storeDriver) runPair(sc *pairScenario) error {
 	d.mu.Lock()
 	d.now = 0
@@ -265,6 +273,7 @@ func runPairFile(in, out string) (int, error) {
 		return 0, err
 	}
 	defer d.rec.close()
+	d.fullToks()
 	sc := bufio.NewScanner(f)
 	sc.Buffer(make([]byte, 1<<20), 1<<26)
 	n := 0
